@@ -174,6 +174,92 @@ fn step(name: &str) -> ReferenceStep
 	}
 }
 
+// ---- mutpass-eval: the mutability pass on one reference with given declarations ------------------------------------
+//   use <map id:mut,..|-> <base id|-> <mutated 0|1>
+//   assign <map> <base|-> <address depth> <step>*        (Statement::Assignment)
+//   address <map> <base|-> <address depth> <step>*       (Expression::Deref)
+//   length <map> <base|-> <address depth> <step>*        (Expression::LengthOfArray)
+pub fn run_mutpass()
+{
+	use penne::alpha::analyzer::verif_mutability_hooks as h;
+	use penne::alpha::error::{Error, Poison};
+	let stdin = std::io::stdin();
+	for line in stdin.lock().lines()
+	{
+		let line = line.unwrap();
+		let w: Vec<String> = line.split(' ').filter(|x| !x.is_empty()).map(|x| x.to_string()).collect();
+		let r = std::panic::catch_unwind(move || {
+			let declared: Vec<(u32, bool)> = if w[1] == "-" { Vec::new() } else {
+				w[1].split(',').map(|e| { let f: Vec<&str> = e.split(':').collect(); (f[0].parse().unwrap(), f[1] == "1") }).collect()
+			};
+			let base: Result<Identifier, Poison> = if w[2] == "-" { Err(Poison::Poisoned) } else { Ok(id(w[2].parse().unwrap())) };
+			let verdict = |p: &Poison| match p
+			{
+				Poison::Error(Error::NotMutable { .. }) => "err530".to_string(),
+				Poison::Error(e) => format!("err{}", e.code()),
+				Poison::Poisoned => "poisoned".to_string(),
+			};
+			match w[0].as_str()
+			{
+				"use" => match h::use_variable(&declared, &base, w[3] == "1")
+				{
+					Ok(()) => "ok".to_string(),
+					Err(p) => verdict(&p),
+				},
+				kind =>
+				{
+					let reference = Reference {
+						base,
+						steps: w[4..].iter().map(|x| step(x)).collect(),
+						address_depth: w[3].parse().unwrap(),
+						location: loc(),
+						location_of_unaddressed: loc(),
+					};
+					if kind == "assign"
+					{
+						let statement = Statement::Assignment {
+							reference,
+							value: Expression::BooleanLiteral { value: true, location: loc() },
+							location: loc(),
+						};
+						match h::analyze_statement(&declared, statement)
+						{
+							Statement::Assignment { .. } => "ok".to_string(),
+							Statement::Poison(p) => verdict(&p),
+							_ => "other".to_string(),
+						}
+					}
+					else if kind == "length"
+					{
+						let expression = Expression::LengthOfArray { reference, location: loc() };
+						match h::analyze_expression(&declared, expression)
+						{
+							Expression::LengthOfArray { .. } => "ok".to_string(),
+							Expression::Poison(p) => verdict(&p),
+							_ => "other".to_string(),
+						}
+					}
+					else
+					{
+						let expression = Expression::Deref { reference, deref_type: None };
+						match h::analyze_expression(&declared, expression)
+						{
+							Expression::Deref { .. } => "ok".to_string(),
+							Expression::Poison(p) => verdict(&p),
+							_ => "other".to_string(),
+						}
+					}
+				}
+			}
+		});
+		match r
+		{
+			Ok(s) => println!("{}", s),
+			Err(_) => println!("PANIC"),
+		}
+	}
+}
+
 pub fn run_mut()
 {
 	let stdin = std::io::stdin();
